@@ -27,7 +27,6 @@ SUBMISSIONS = {
     "sections_bad": "a = 1\n##### Part 1\nprint(zzz)\n##### Part 2\nprint(2)\n",
     "openf": "print(open('data.txt').read())\n",
     "imports": "import os\nimport math\nprint(math.sqrt(4))\n",
-    "mathmod": "import math\nmath.extra = 1\nprint(math.extra + math.floor(2.5))\n",
     "mathuse": "import math\nprint(math.extra)\n",
     "loop": "total = 0\nfor i in [1, 2, 3]:\n    total = total + i\nprint(total)\n",
     "sleep": "import time\ntime.sleep(0)\nprint('done')\n",
@@ -190,7 +189,14 @@ def wire(g):
 
 def G(frags, sub, **kw):
     script = WHOLE_SCRIPTS[frags[0]] if frags and frags[0] in WHOLE_SCRIPTS else script_of(frags)
-    return dict({"frags": list(frags), "sub": sub, "script": script, "code": SUBMISSIONS[sub], "env": "standard"}, **kw)
+    return dict({"frags": list(frags), "sub": sub, "script": script, "code": _code(sub), "env": "standard"}, **kw)
+
+
+SUBMISSIONS_CORPUS_ONLY = {"mathmod": "import math\nmath.extra = 1\nprint(math.extra + math.floor(2.5))\n"}
+
+
+def _code(sub):
+    return SUBMISSIONS[sub] if sub in SUBMISSIONS else SUBMISSIONS_CORPUS_ONLY[sub]
 
 
 CORPUS = [
@@ -215,7 +221,9 @@ CORPUS = [
     ("inputs-left-over", [G(["inputs"], "input"), G(["student_out"], "input2")]),
     ("hide-then-plain", [G(["hide"], "ok"), G(["nothing"], "ok")]),
     ("group-then-plain", [G(["group"], "ok"), G(["gently"], "ok")]),
-    ("tifa-module-attribute", [G(["nothing"], "mathmod"), G(["tifa_again"], "mathuse"), G(["tifa_again"], "mathuse", skip_tifa=True)]),
+    # a program that adds an attribute to a builtin module, ANALYSED only (running it would change the real module)
+    ("tifa-module-attribute", [G(["nothing"], "mathmod", skip_run=True), G(["tifa_again"], "mathuse"),
+                               G(["tifa_again"], "mathuse", skip_tifa=True)]),
     ("tifa-module-attribute-script", [G(["tifa_other"], "ok"), G(["tifa_again"], "mathuse", skip_tifa=True)]),
     ("same-pair-twice", [G(["assert_call", "compliment"], "ok"), G(["assert_call", "compliment"], "ok")]),
     ("other-environment-first", [G(["gently"], "nameerr", env="terminal"), G(["gently"], "nameerr"),
